@@ -362,6 +362,9 @@ def run(ctx):
                        "top-level sequence (box dropped/doubled/swapped, mdat/moof/styp/moov inserted, trailing bytes, cut-short mdat, size 0); "
                        "search: harvested boxes of ALL types + hand-written seeds for rare types + structured valid variants "
                        "(esds descriptor orders x size-of-size 1..4 x optional fields, sample entry child permutations, sgpd/uuid) "
+                       "+ structured senc boxes (1..3 samples x 0..2 sub-sample entries, 16-byte IVs = 64-bit IV + zero/small block counter, "
+                       "small / opaque IVs, 8-byte IVs; stand-alone, as PIFF uuid, and inside moof/traf of whole files decoded WITHOUT init, "
+                       "with tenc IV size 0 and with the matching tenc IV size, so that ParseReadSenc has to find the IV size by trial) "
                        "+ mutants, through both decoders: "
                        "masked equality with the input, second decode, third encode")
 
